@@ -1036,8 +1036,14 @@ evhttp_handle_chunked_read(struct evhttp_request *req, struct evbuffer *buf)
 			char *endp;
 			int error;
 			size_t len_p;
-			if (p == NULL)
+			if (p == NULL) {
+				/* do not buffer an endless chunk-size line
+				 * (size or chunk extensions): it is framing,
+				 * so it is held to the header size limit */
+				if (buflen > req->evcon->max_headers_size)
+					return (DATA_TOO_LONG);
 				break;
+			}
 			len_p = strlen(p);
 			/* the last chunk is on a new line? */
 			if (len_p == 0) {
